@@ -621,8 +621,20 @@ func (fv *FV) convertTo(st *State, v Term, from types.Type, to types.Type, pos t
 func (fv *FV) evalSliceExpr(st *State, x *ast.SliceExpr) Term {
 	base := fv.evalExpr(st, x.X)
 	if base.Sort.Kind == KStr {
-		fv.note("string slicing abstracted")
-		return fv.fresh("substr", SStr)
+		// the contents of the substring are abstracted; its bounds are checked and its length is known
+		fv.note("string slicing: contents abstracted, bounds checked")
+		slo := tInt(0)
+		shi := T(sx("str_len", base.S), SInt)
+		if x.Low != nil {
+			slo = fv.bind(st, fv.evalExpr(st, x.Low), "lo")
+		}
+		if x.High != nil {
+			shi = fv.bind(st, fv.evalExpr(st, x.High), "hi")
+		}
+		fv.assert(st, "slice-bounds", tAnd(T(sx("<=", "0", slo.S), SBool), T(sx("<=", slo.S, shi.S), SBool), T(sx("<=", shi.S, sx("str_len", base.S)), SBool)), x.Pos(), "string slice bounds in range")
+		r := fv.fresh("substr", SStr)
+		st.assume(T(sx("=", sx("str_len", r.S), sx("-", shi.S, slo.S)), SBool))
+		return r
 	}
 	if base.Sort.Kind != KSlice {
 		fv.abort(x.Pos(), "slice of sort %s", base.Sort.Name)
